@@ -17,9 +17,9 @@ import (
 type c20Op struct {
 	kind    string // open, append, after, setmax, closed
 	s, t    int
-	size    int // append: payload size
-	idx     int // after: index (-1,0,1,2) or -2 = "last"
-	n       int // setmax
+	size    int  // append: payload size
+	idx     int  // after: index (-1,0,1,2) or -2 = "last"
+	n       int  // setmax
 	during  bool // after: append to the sibling stream while the iterator is being consumed
 	display string
 }
